@@ -165,7 +165,7 @@ func runC01(c *Ctx) {
 		if encAns != nil {
 			want := fmt.Sprintf("%s %d", hexs(b1), elen)
 			if encAns[i] != want {
-				c.Violate("correspondence", "enc-differs-from-E5-model", fmt.Sprintf("implementation bytes %s len %d, E5 reference model says %s",
+				c.Violate("property", "enc-differs-from-E5-model", fmt.Sprintf("implementation bytes %s len %d, E5 reference model says %s",
 					clip(hexs(b1), 120), elen, clip(encAns[i], 120)), replay)
 			}
 		}
